@@ -128,17 +128,59 @@ package io
 //@ macro shardSizeOf(x) = ite(typeis(x, "*HAMTDirectory"), unbox(x, "*HAMTDirectory").hamtShardingSize, unbox(x, "*BasicDirectory").hamtShardingSize)
 //@ macro isDirImpl(x) = typeis(x, "*HAMTDirectory") || typeis(x, "*BasicDirectory")
 
+//@ macro maxLinksOf(x) = ite(typeis(x, "*HAMTDirectory"), unbox(x, "*HAMTDirectory").maxLinks, unbox(x, "*BasicDirectory").maxLinks)
+// functional options are immutable closures: what an option does is a function of the option value
+//@ spec isMaxLinksOpt(o DirectoryOption) bool
+//@ spec optMaxLinks(o DirectoryOption) int
+//@ func WithMaxLinks
+//@   assumed
+//@   ensures isMaxLinksOpt(result) && optMaxLinks(result) == n
+//@ func WithMaxHAMTFanout
+//@   assumed
+//@   ensures !isMaxLinksOpt(result)
+//@ func WithCidBuilder
+//@   assumed
+//@   ensures !isMaxLinksOpt(result)
+//@ func WithStat
+//@   assumed
+//@   ensures !isMaxLinksOpt(result)
+//@ func WithSizeEstimationMode
+//@   assumed
+//@   ensures !isMaxLinksOpt(result)
+
 // a freshly built directory has no per-directory threshold (it is not a DirectoryOption)
 //@ func (*HAMTDirectory).switchToBasic
 //@   assumed
 //@   ensures err == nil ==> result0 != nil && result0.hamtShardingSize == 0 && result0.node != nil
+//@   ensures err == nil ==> forall(i, 0, len(opts), isMaxLinksOpt(opts[i]) ==> result0.maxLinks == optMaxLinks(opts[i]))
 // (the converted directory is built with NewBasicDirectory + addLinkChild, which establish the C17 invariant)
 //@   ensures err == nil ==> estInv(result0) && estSmall(result0) && all(nm string, 0 <= namedBytes(result0.node, nm) && namedBytes(result0.node, nm) <= linkBytes(result0.node))
 //@ func (*BasicDirectory).switchToSharding
 //@   assumed
 //@   ensures err == nil ==> result0 != nil && result0.hamtShardingSize == 0
-//@ func (*HAMTDirectory).needsToSwitchToBasicDir
+//@   ensures err == nil ==> forall(i, 0, len(opts), isMaxLinksOpt(opts[i]) ==> result0.maxLinks == optMaxLinks(opts[i]))
+// HAMT -> basic rule: switch back iff the sharding threshold is enabled, the entry count after the
+// operation (one more for an added node, one less for an existing entry of that name) fits MaxLinks,
+// and - unless size estimation is disabled - the size shrank below the threshold (sizeBelowThreshold,
+// asked with the size change of exactly this operation).
+//@ func (*HAMTDirectory).linkSizeFor
 //@   assumed
+//@   pure
+//@ func (*HAMTDirectory).sizeBelowThreshold
+//@   assumed
+//@ macro hamtEffThreshold(d) = ite(d.hamtShardingSize > 0, d.hamtShardingSize, HAMTShardingSize)
+//@ macro hamtDisabledMode(d) = ite(d.sizeEstimation != nil, deref(d.sizeEstimation), HAMTSizeEstimation) == SizeEstimationDisabled
+//@ macro linksAfter(d, nodeToAdd, found) = d.totalLinks + ite(nodeToAdd != nil, 1, 0) - ite(found != nil, 1, 0)
+//@ func (*HAMTDirectory).needsToSwitchToBasicDir
+//@   prop C16
+//@   arith bv
+//@   requires d != nil
+//@   ensures[threshold_disabled] hamtEffThreshold(d) == 0 ==> err == nil && !switchToBasic
+//@   ensures[count_only_mode] hamtEffThreshold(d) != 0 && err == nil && hamtDisabledMode(d) ==> switchToBasic == (d.maxLinks > 0 && linksAfter(d, nodeToAdd, res("call:Shard.Find#0", 0)) <= d.maxLinks)
+//@   ensures[size_and_count_rule] hamtEffThreshold(d) != 0 && err == nil && !hamtDisabledMode(d) ==> switchToBasic == ((d.maxLinks <= 0 || linksAfter(d, nodeToAdd, res("call:Shard.Find#0", 0)) <= d.maxLinks) && called("call:HAMTDirectory.sizeBelowThreshold#0") && res("call:HAMTDirectory.sizeBelowThreshold#0", 0))
+//@   site[asks_with_this_operations_size_change] call:HAMTDirectory.sizeBelowThreshold : arg2 == ite(called("call:HAMTDirectory.linkSizeFor#1"), res("call:HAMTDirectory.linkSizeFor#1", 0), 0) - ite(called("call:HAMTDirectory.linkSizeFor#0"), res("call:HAMTDirectory.linkSizeFor#0", 0), 0) && d.sizeChange + arg2 < 0
+//@   site[removed_entry_size] call:HAMTDirectory.linkSizeFor#0 : arg1 == res("call:Shard.Find#0", 0) && arg1 != nil
+//@   site[added_entry_size] call:HAMTDirectory.linkSizeFor#1 : arg1 == res("call:MakeLink#0", 0) && nodeToAdd != nil
 //@ func (*BasicDirectory).AddChild
 //@   assumed
 //@   modifies d.estimatedSize, d.totalLinks, fields(d.node), linkBytes(d.node), namedBytes(d.node, name)
@@ -166,13 +208,17 @@ package io
 //@   requires typeis(d.Directory, "*BasicDirectory") ==> unbox(d.Directory, "*BasicDirectory").node != nil
 //@   modifies all
 //@   ensures[threshold_kept] err == nil ==> isDirImpl(d.Directory) && shardSizeOf(d.Directory) == old(shardSizeOf(d.Directory))
+//@   ensures[max_links_kept] err == nil ==> maxLinksOf(d.Directory) == old(maxLinksOf(d.Directory))
 
 //@ func (*DynamicDirectory).RemoveChild
 //@   prop C16
 //@   arith bv
 //@   requires d != nil && isDirImpl(d.Directory) && unbox(d.Directory, "*HAMTDirectory") != nil && unbox(d.Directory, "*BasicDirectory") != nil
+// (the temporary maxLinks+1 of the HAMT -> basic conversion wraps for MaxInt: excluded, see DESIGN.md)
+//@   requires[max_links_below_max_int] maxLinksOf(d.Directory) < 9223372036854775807
 //@   modifies all
 //@   ensures[threshold_kept] err == nil ==> isDirImpl(d.Directory) && shardSizeOf(d.Directory) == old(shardSizeOf(d.Directory))
+//@   ensures[max_links_kept] err == nil ==> maxLinksOf(d.Directory) == old(maxLinksOf(d.Directory))
 
 // sharding rule (IPIP-499): switch to HAMT iff the threshold is enabled and the estimate
 // after the operation exceeds it (strictly), or a new entry would exceed MaxLinks
